@@ -13,11 +13,17 @@ def import_obj(path : str):
         output = parse_obj_data(objf.readlines())
     return output
 
-def parse_vertex( vstr ):
+def resolve_index(i : int, n : int) -> int:
+    """0-based index of the element an .obj reference designates: references count from 1, a negative one is relative
+    to the n elements read so far (-1 is the last one)"""
+    return i-1 if i>0 else n+i
+
+def parse_vertex( vstr, nv, nt, nn ):
+    # nv, nt, nn : number of v, vt and vn statements read so far (relative references)
     vals = vstr.split('/')
-    vid = int(vals[0])-1
-    tid = int(vals[1])-1 if len(vals)>1 and vals[1] else -1
-    nid = int(vals[2])-1 if len(vals) > 2 else -1
+    vid = resolve_index(int(vals[0]), nv)
+    tid = resolve_index(int(vals[1]), nt) if len(vals)>1 and vals[1] else -1
+    nid = resolve_index(int(vals[2]), nn) if len(vals) > 2 else -1
     return (vid,tid,nid) 
 
 def parse_obj_data(data):
@@ -35,11 +41,11 @@ def parse_obj_data(data):
         elif toks[0] == 'vt':
             uv_coords.append( Vec([float(toks[1]), float(toks[2])]) )
         elif toks[0] == 'f':
-            faces.append([ parse_vertex(vstr) for vstr in toks[1:] ])
+            faces.append([ parse_vertex(vstr, len(obj.vertices), len(uv_coords), len(normals)) for vstr in toks[1:] ])
         elif toks[0] == 'l':
             # a line element is a polyline : l v1 v2 v3 ... stands for the edges (v1,v2), (v2,v3), ...
             for i in range(1, len(toks)-1):
-                v1,v2 = int(toks[i])-1, int(toks[i+1])-1
+                v1,v2 = resolve_index(int(toks[i]), len(obj.vertices)), resolve_index(int(toks[i+1]), len(obj.vertices))
                 e = keyify(v1,v2)
                 obj.edges.append(e)
 
